@@ -460,7 +460,7 @@ def check_case(case, rec=None):
     return check_release(case, rec) if case["mode"] == "release" else check_iterate(case, rec)
 
 
-N = {"quick": 400, "thorough": 3000}
+N = {"quick": 800, "thorough": 4800}
 
 
 def shard_plan(tier):
